@@ -117,6 +117,20 @@ func init() {
 			}
 			return t
 		},
+		ndPkg + ".PinStr": func(in *Interp, fn *ssa.Function, a []Value) Value {
+			s := a[0].(*Str)
+			if s.kind == sConc {
+				return s
+			}
+			if s.kind != sEnum {
+				in.fail("nd.PinStr needs a finite-domain string")
+			}
+			conds := make([]*sym.Term, len(s.alts))
+			for i := range s.alts {
+				conds[i] = in.St.Eq(s.sel, in.St.Int(int64(i)))
+			}
+			return concStr(s.alts[in.choose(conds, "pin string")])
+		},
 		ndPkg + ".Symbolic":  func(in *Interp, fn *ssa.Function, a []Value) Value { return in.St.True },
 		ndPkg + ".Reach": func(in *Interp, fn *ssa.Function, a []Value) Value {
 			in.reached = append(in.reached, "reach:"+a[0].(*Str).conc)
